@@ -119,9 +119,11 @@ fn main() {
         let notx = req["notx"].as_bool().unwrap_or(false);
         // Two lexers (original and clone) may each run every action once.
         let budget = (r.chars.len() as i64 + 10) * if clone_at >= 0 { 2 } else { 1 };
-        drv::begin_run(&r.script, ctor < 2 && !notx, clone_at >= 0, budget);
+        let fine = req["fine"].as_bool().unwrap_or(false) && clone_at < 0;
+        drv::begin_run(&r.script, ctor < 2 && !notx, clone_at >= 0, budget, fine);
         let res = std::panic::catch_unwind(std::panic::AssertUnwindSafe(|| run(&r)));
         let mut actual = drv::take_log();
+        let fine_events = if fine { drv::take_fine() } else { vec![] };
         if let Err(payload) = res {
             let msg = if let Some(s) = payload.downcast_ref::<&str>() {
                 s.to_string()
@@ -186,7 +188,11 @@ fn main() {
                 writeln!(out, "{}", json!({"i": idx, "ok": false, "ev": actual})).unwrap();
             }
             None => {
-                writeln!(out, "{}", json!({"i": idx, "ev": actual})).unwrap();
+                if fine {
+                    writeln!(out, "{}", json!({"i": idx, "ev": actual, "fine": fine_events})).unwrap();
+                } else {
+                    writeln!(out, "{}", json!({"i": idx, "ev": actual})).unwrap();
+                }
             }
         }
     }
